@@ -515,7 +515,77 @@ pub fn check(tier: Tier) -> i32 {
     )
 }
 
+/// Replays of the three case families that are not operation histories.
+fn replay_extra(v: &Value) -> Option<Vec<(String, String)>> {
+    use crate::bridge::*;
+    let mut out = vec![];
+    let with_shx = v.get("with_shx")?.as_bool()?;
+    let file_ty = Ty::from_name(v.get("file_type")?.as_str()?)?;
+    let env = WEnv::new(with_shx);
+    let mut w = match &env.shx {
+        Some(x) => shapefile::ShapeWriter::with_shx(env.shp.clone(), x.clone()),
+        None => shapefile::ShapeWriter::new(env.shp.clone()),
+    };
+    let ops_now = |e: &WEnv| (e.shp.log_len(), e.shx.as_ref().map(|x| x.log_len()).unwrap_or(0));
+    if let Some(n) = v.get("accepted_before_the_rejected_write").and_then(|x| x.as_u64()) {
+        let offered = Ty::from_name(v.get("offered_type")?.as_str()?)?;
+        let pal = Palette::new(file_ty, Some(offered));
+        let expect = format!("MismatchShapeType(requested={},actual={})", file_ty.code(), offered.code());
+        for i in 1..=n as usize {
+            let _ = write_shape(&mut w, &pal.lib[i % 2]);
+        }
+        let before = ops_now(&env);
+        let got = write_shape(&mut w, pal.other.as_ref().unwrap()).map_err(|e| err_kind(&e));
+        if got != Err(expect) {
+            out.push(("count-sweep:rejected-write-result".to_string(), format!("{:?}", got)));
+        }
+        let wrote = |d: &Dev, from: usize| d.log()[from..].iter().any(|o| matches!(o, Op::Write { .. }));
+        if wrote(&env.shp, before.0) || env.shx.as_ref().map(|x| wrote(x, before.1)).unwrap_or(false) {
+            out.push(("count-sweep:rejected-write-wrote-bytes".to_string(), format!("the rejected write after {} accepted records wrote to a destination", n)));
+        }
+        return Some(out);
+    }
+    let offered = v.get("offered")?.as_str()?.to_string();
+    let pal = Palette::new(file_ty, None);
+    let _ = write_shape(&mut w, &pal.lib[0]);
+    let before = ops_now(&env);
+    if let Some(size) = v.get("announced_size").and_then(|x| x.as_u64()) {
+        let r = catch(|| w.write_shape(&Absurd { size: size as usize }).map_err(|e| err_kind(&e)));
+        let want = Err(format!("MismatchShapeType(requested={},actual={})", file_ty.code(), Ty::Polygon.code()));
+        match r {
+            Ok(got) if got == want && ops_now(&env) == before => {}
+            Ok(got) => out.push(("user-shape:rejected-write".to_string(), format!("returned {:?}, {} operations on the .shp", got, env.shp.log_len() - before.0))),
+            Err(p) => out.push((format!("user-shape:{}", p.sig()), p.msg)),
+        }
+        return Some(out);
+    }
+    let name = offered.strip_prefix("user-defined shape of type ")?.to_string();
+    let mut found = false;
+    for_each_user_type(|code, n, offer| {
+        if n != name {
+            return;
+        }
+        found = true;
+        let r = catch(|| offer(&mut w).map_err(|e| err_kind(&e)));
+        let after = ops_now(&env);
+        let want = Err(format!("MismatchShapeType(requested={},actual={})", file_ty.code(), code));
+        match r {
+            Ok(got) if got == want && before == after => {}
+            Ok(got) => out.push(("user-typed-shape:rejected-write".to_string(), format!("returned {:?} (expected {:?}), {} operations on the .shp, {} on the .shx", got, want, after.0 - before.0, after.1 - before.1))),
+            Err(p) => out.push((format!("user-typed-shape:{}", p.sig()), p.msg)),
+        }
+    });
+    if found {
+        Some(out)
+    } else {
+        None
+    }
+}
+
 pub fn replay(v: &Value) -> Vec<(String, String)> {
+    if v.get("file_type").is_some() && v.get("ops").is_none() {
+        return replay_extra(v).unwrap_or_else(|| vec![("bad-replay-file".into(), "cannot parse case".into())]);
+    }
     if let Some(fc) = crate::frun::FCase::from_json(v) {
         let pal = fc.palette();
         return match catch(|| crate::frun::run(&pal, &fc)) {
